@@ -294,7 +294,7 @@ static inline void ctx_{prefix}_drop({ty} *self) {{
             }),
             (&container_ty, cont, container_wrappers.is_some()),
             (&context, ctx, context_wrappers.is_some()),
-            (&this_ty, &[]),
+            (&this_ty, &["vtbl"]),
             &mut generated_funcs,
             config,
         );
@@ -310,7 +310,22 @@ static inline void ctx_{prefix}_drop({ty} *self) {{
 
     // Create wrappers to group objects
 
+    // Vtable fields of every group type, so that returned objects get them copied over
+    let mut group_fields: HashMap<(String, String), Vec<String>> = HashMap::new();
+
+    for (t, cont, second_half, ..) in &group_vtbls {
+        group_fields
+            .entry((cont.clone(), second_half.clone()))
+            .or_default()
+            .push(format!("vtbl_{}", t.to_lowercase()));
+    }
+
     for (t, cont, second_half, inner, context, funcs) in group_vtbls {
+        let vtbl_fields = group_fields[&(cont.clone(), second_half.clone())]
+            .iter()
+            .map(String::as_str)
+            .collect::<Vec<_>>();
+
         let this_ty = format!("struct {}_{}", cont, second_half);
         let container_ty = format!("struct {}Container_{}", cont, second_half);
 
@@ -341,7 +356,7 @@ static inline void ctx_{prefix}_drop({ty} *self) {{
             ("", &|_| Some(&cont)),
             (&container_ty, inner, container_wrappers.is_some()),
             (&context, ctx, context_wrappers.is_some()),
-            (&this_ty, &[]),
+            (&this_ty, &vtbl_fields),
             &mut generated_funcs,
             config,
         );
